@@ -1049,6 +1049,82 @@ fn mode_panic_storm(r: &mut Runner) {
     }
 }
 
+/// The last handle is dropped while the wrapped sink is slow but alive: a pacer thread lets one queued metric through
+/// every 10 ms for as long as the drop has not returned. Dropping never waits - neither for the backlog nor for a grace
+/// period: the call watchdog decides (the dropping thread found waiting sample after sample, or burning CPU, inside drop).
+/// Afterwards everything accepted is still handed over and the sink is released.
+fn mode_slow_drop(r: &mut Runner) {
+    for (cap, n, blocked_for_good) in [(None, 160usize, false), (Some(200usize), 160, false), (None, 12, true), (Some(16), 12, true)] {
+        let sh = Shared::new(true);
+        set_current(Some(sh.clone()));
+        let mut b = QueuingMetricSink::builder();
+        if let Some(c) = cap {
+            b = b.with_capacity(c);
+        }
+        let q = b.build(GatedSink { sh: sh.clone() });
+        let mut accepted = 0usize;
+        for k in 0..n {
+            if q.emit(&format!("slow{}.n{}|ok", r.sid, k)).is_ok() {
+                accepted += 1;
+            }
+        }
+        let _ = await_log(&sh, |st| st.log.iter().any(|e| matches!(e, Ev::Enter { .. })));
+        let stop = Arc::new(std::sync::atomic::AtomicBool::new(false));
+        let pacer = {
+            let (sh2, stop2) = (sh.clone(), stop.clone());
+            std::thread::spawn(move || {
+                let _reg = procmon::Registration::new();
+                let mut released = 0usize;
+                while !stop2.load(std::sync::atomic::Ordering::SeqCst) && !blocked_for_good {
+                    std::thread::sleep(std::time::Duration::from_millis(10));
+                    if sh2.count(|e| matches!(e, Ev::DropRet { .. })) > 0 {
+                        break;
+                    }
+                    sh2.release_one();
+                    released += 1;
+                }
+                released
+            })
+        };
+        sh.push(Ev::DropCall { h: 0 });
+        let ctx = jobj! {"capacity" => cap.map(|c| c.to_string()).unwrap_or_else(|| "unbounded".into()), "ops" => format!("slow-drop backlog={} wrapped sink {}", accepted, if blocked_for_good { "blocked for good" } else { "lets one metric through every 10 ms" })};
+        let dr = in_call("drop", || ctx.clone(), || panics::guard(move || drop(q)));
+        sh.push(Ev::DropRet { h: 0 });
+        stop.store(true, std::sync::atomic::Ordering::SeqCst);
+        let released_before_return = pacer.join().unwrap_or(0);
+        {
+            let mut rep = r.rep();
+            rep.eval();
+            rep.obs("slow_sink_last_drops", 1);
+            rep.obs("max_metrics_let_through_before_drop_returned", 0);
+            rep.obs_max("max_metrics_let_through_before_drop_returned", released_before_return as u64);
+            rep.distinct(&format!("slowdrop|{:?}|{}|{}", cap, n, blocked_for_good));
+            if let Err(p) = dr {
+                if r.prop == "C09" {
+                    rep.violation(Violation { property: "C09".into(), rule: "R4".into(), class: "drop-panicked".into(), detail: p, replay_args: r.args.to_vec_with(&[]), trace: Json::Null });
+                }
+            }
+        }
+        sh.open_all();
+        let res = await_log(&sh, |st| st.log.iter().filter(|e| matches!(e, Ev::Exit { .. })).count() >= accepted)
+            .and_then(|_| await_log(&sh, |st| st.log.iter().any(|e| matches!(e, Ev::SinkDrop { .. }))))
+            .and_then(|_| await_no_library_thread());
+        if let Err(st) = res {
+            let mut rep = r.rep();
+            if st.is_verdict() {
+                if r.prop == "C09" || r.prop == "C08" {
+                    let p = r.prop.clone();
+                    rep.violation(Violation { property: p, rule: "R4".into(), class: "undelivered-after-last-drop".into(), detail: format!("slow-drop: {} accepted: {}", accepted, st.describe()), replay_args: r.args.to_vec_with(&[]), trace: Json::Null });
+                }
+                adopt_zombies();
+            } else {
+                rep.inconclusive(st.describe());
+            }
+        }
+        set_current(None);
+    }
+}
+
 fn main() {
     let args = Args::from_env();
     panics::install_hook();
@@ -1072,7 +1148,7 @@ fn main() {
                     property: p.into(),
                     rule: if what == "drop" { "R4".into() } else { "R5".into() },
                     class: class.into(),
-                    detail: format!("`{}` never returned while the wrapped sink was blocked: {}", what, evidence),
+                    detail: format!("`{}` waits for the wrapped sink (blocked or slow): {}", what, evidence),
                     replay_args: args2.to_vec_with(&[("mode", "seq-one".into()), ("cap", cap), ("ops", ops)]),
                     trace: ctx.clone(),
                 });
@@ -1092,6 +1168,7 @@ fn main() {
             "drop-matrix" => mode_drop_matrix(&mut runner),
             "outcomes" => mode_outcomes(&mut runner),
             "panic-storm" => mode_panic_storm(&mut runner),
+            "slow-drop" => mode_slow_drop(&mut runner),
             "seq-one" => {
                 let sc = Scenario {
                     cap: parse_cap(&args.str("cap", "unbounded")),
